@@ -194,6 +194,26 @@ Theorem C10_join_base_assembled : forall m i p q f,
     /\ tp_method (t_data t) (t_core t) = Ok m /\ tp_method_id (t_data t) (t_core t) = Ok i
     /\ tp_path (t_data t) (t_core t) = Ok p /\ tp_query (t_data t) (t_core t) = Ok q /\ tp_fragment (t_data t) (t_core t) = Ok f.
 Proof. exact assemble_base_spec. Qed.
+(* in general: every setter of the third-party value (all arms of the crate's code) maps the CANONICAL value of some components - the
+   string "did:" m ":" i p ["?" q] ["#" f] with the offsets that belong to it - to the canonical value of the updated components; the accessors
+   of a canonical value answer with its components; hence what the third-party join computes from the assembled base (transform_references)
+   is again canonical: nothing in the splice-and-shift arithmetic can misplace a component, whatever bytes the components hold *)
+Theorem C10_tp_setters_canonical : forall m i p q f,
+  (forall v, tp_set_method (tp_canon m i p q f) v = Ok (tp_canon v i p q f))
+  /\ (forall v, tp_set_method_id (tp_canon m i p q f) v = Ok (tp_canon m v p q f))
+  /\ (forall v, tp_set_path (tp_canon m i p q f) v = Ok (tp_canon m i v q f))
+  /\ (forall v, tp_set_query (tp_canon m i p q f) v = Ok (tp_canon m i p v f))
+  /\ (forall v, tp_set_fragment (tp_canon m i p q f) v = Ok (tp_canon m i p q v)).
+Proof. exact (fun m i p q f => conj (set_method_canon m i p q f) (conj (set_method_id_canon m i p q f) (conj (set_path_canon m i p q f) (conj (set_query_canon m i p q f) (set_fragment_canon m i p q f))))). Qed.
+Theorem C10_tp_canon_accessors : forall m i p q f,
+  let t := tp_canon m i p q f in
+  tp_method (t_data t) (t_core t) = Ok m /\ tp_method_id (t_data t) (t_core t) = Ok i
+  /\ tp_path (t_data t) (t_core t) = Ok p /\ tp_query (t_data t) (t_core t) = Ok q /\ tp_fragment (t_data t) (t_core t) = Ok f.
+Proof. exact canon_accessors. Qed.
+Theorem C10_tp_parse_and_join_canonical : forall m i p q f path' query' F,
+  tp_assemble_did m i = Ok (tp_canon m i [] None None)
+  /\ tp_transform (tp_canon m i p q f) m i path' query' F = Ok (tp_canon m i path' query' F).
+Proof. exact (fun m i p q f path' query' F => conj (assemble_did_canon m i) (transform_canon m i p q f path' query' F)). Qed.
 (* the hypotheses are satisfiable: did:ab:c:d/p?q=1#f *)
 Example C10_wf_example : wf_parts [97; 98] [99; 58; 100] [47; 112] (Some [113; 61; 49]) (Some [102]).
 Proof. constructor; [split; [discriminate|reflexivity] | split; [discriminate|reflexivity] | right; eexists; split; reflexivity
@@ -252,6 +272,9 @@ Print Assumptions C10_eq_iff_same_string_pct.
 Print Assumptions C10_wf_is_wfp.
 Print Assumptions C10_parse_assembles_value.
 Print Assumptions C10_join_base_assembled.
+Print Assumptions C10_tp_setters_canonical.
+Print Assumptions C10_tp_canon_accessors.
+Print Assumptions C10_tp_parse_and_join_canonical.
 Print Assumptions C10_eq_iff_ord_equal.
 Print Assumptions C10_ord_antisymmetric.
 Print Assumptions C10_eq_same_hash.
